@@ -115,7 +115,7 @@ Proof.
     by (rewrite Hub; split; reflexivity).
   destruct Sb as [Sb Ab].
   unfold c07_holds, record_obs. cbv zeta.
-  cbn [c_obs c_ref1 c_ref2 o_before o_nav1 o_nav1_again o_after o_nav2 o_nb1 o_nb2 o_nr1 o_nr2].
+  cbn [c_obs c_ref1 c_ref2 o_before o_nav1 o_nav1_again o_after o_nav2 o_nb1 o_nb2 o_nr1 o_nr2 o_ref1 o_ref2].
   rewrite <- !(navigate_url_lc b d1), <- (normalize_lc b).
   set (n1 := navigate_url (lc b) d1) in *.
   (* 1-2: domain *)
